@@ -4,7 +4,9 @@ package reflection
 
 import (
 	bpb "github.com/google/fhir/go/proto/google/fhir/proto/r4/core/resources/bundle_and_contained_resource_go_proto"
+	oopb "github.com/google/fhir/go/proto/google/fhir/proto/r4/core/resources/operation_outcome_go_proto"
 	ppb "github.com/google/fhir/go/proto/google/fhir/proto/r4/core/resources/patient_go_proto"
+	tcpb "github.com/google/fhir/go/proto/google/fhir/proto/r4/core/resources/terminology_capabilities_go_proto"
 	"github.com/verily-src/fhirpath-go/internal/verifrt"
 )
 
@@ -14,7 +16,9 @@ import (
 func VerifHarness_C12_NestedComponents() {
 	var x any
 	short := ""
-	switch verifrt.Choose("component", 5) {
+	switch verifrt.Choose("component", 6) {
+	case 5: // a component whose name ends in "Code" without being a code (its only own field is "translations")
+		x, short = &tcpb.TerminologyCapabilities_ValidateCode{}, "ValidateCode"
 	case 0:
 		x, short = &ppb.Patient_Communication{}, "Communication"
 	case 1:
@@ -36,6 +40,31 @@ func VerifHarness_C12_NestedComponents() {
 	verifrt.Assert(!bool(ts.Is(TypeSpecifier{FHIR, "DomainResource"})) && !bool(ts.Is(TypeSpecifier{FHIR, "Resource"})), "nested-component-is-not-a-resource")
 	verifrt.Assert(!bool(ts.Is(TypeSpecifier{FHIR, short})), "nested-component-is-not-the-type-it-shares-a-short-name-with")
 	verifrt.Assert(bool(ts.Is(ts)), "is-reflexive")
+	verifrt.Assert(!bool(ts.Is(TypeSpecifier{FHIR, "code"})) && !bool(ts.Is(TypeSpecifier{FHIR, "string"})), "nested-component-is-not-a-code")
+	verifrt.Reach("end")
+}
+
+// C12: bound code elements - generated as <Owner>_<Name>Code, or <Owner>_CodeType when the element itself is called
+// "code" - are FHIR codes: 'is code', 'is string' and 'is Element' hold, 'is BackboneElement' does not.
+func VerifHarness_C12_BoundCodes() {
+	var x any
+	switch verifrt.Choose("code", 4) {
+	case 0:
+		x = &ppb.Patient_GenderCode{}
+	case 1:
+		x = &oopb.OperationOutcome_Issue_CodeType{}
+	case 2:
+		x = &oopb.OperationOutcome_Issue_SeverityCode{}
+	default:
+		x = &ppb.Patient_Link_TypeCode{}
+	}
+	ts, err := TypeOf(x)
+	verifrt.Assert(err == nil && ts.namespace == FHIR && ts.typeName == "code", "bound-code-is-typed-code")
+	if err != nil {
+		return
+	}
+	verifrt.Assert(bool(ts.Is(TypeSpecifier{FHIR, "string"})) && bool(ts.Is(TypeSpecifier{FHIR, "Element"})), "code-is-string-and-Element")
+	verifrt.Assert(!bool(ts.Is(TypeSpecifier{FHIR, "BackboneElement"})), "code-is-not-a-backbone-component")
 	verifrt.Reach("end")
 }
 
